@@ -15,13 +15,17 @@ package main
 
 import (
 	"bytes"
+	"context"
 	"crypto/ed25519"
 	"encoding/base64"
 	"encoding/json"
 	"fmt"
+	"os"
+	"os/exec"
 	"sort"
 	"strconv"
 	"strings"
+	"time"
 
 	gmsl "github.com/matrix-org/gomatrixserverlib"
 	"github.com/matrix-org/gomatrixserverlib/spec"
@@ -133,6 +137,34 @@ func execSign(op string, args []string) string {
 			return "ok"
 		}
 		return "rej"
+	case "deep_verify", "deep_sign":
+		// in a child process under a time budget: a fatal stack overflow or a run over the budget is the OUTCOME
+		// `panic:fatal-stack-overflow` / `panic:timeout`, not the end of the harness
+		return runSignChild(op+"_child", args)
+	case "deep_verify_child":
+		depth, _ := strconv.Atoi(args[1])
+		pub, priv := signKey(0)
+		text, payload := deepSignedText(args[0], depth, priv)
+		if text == nil {
+			return "bad-op"
+		}
+		_ = payload
+		if gmsl.VerifyJSON("srv", "ed25519:1", pub, text) == nil {
+			return "ok"
+		}
+		return "rej"
+	case "deep_sign_child":
+		depth, _ := strconv.Atoi(args[1])
+		pub, priv := signKey(0)
+		text := deepUnsignedText(args[0], depth)
+		if text == nil {
+			return "bad-op"
+		}
+		out, err := gmsl.SignJSON("srv", "ed25519:1", priv, text)
+		if err != nil {
+			return "err"
+		}
+		return "ok:" + classifyVerify(gmsl.VerifyJSON("srv", "ed25519:1", pub, out))
 	case "list":
 		ids, err := gmsl.ListKeyIDs(string(unhx(args[2])), unhx(args[1]))
 		if err != nil {
@@ -149,6 +181,93 @@ func execSign(op string, args []string) string {
 		return "ok:" + strings.Join(hs, ",")
 	}
 	return "bad-op"
+}
+
+// signOpBudget: the time one deep_* op may take (a signed object of a few hundred KB is verified in milliseconds).
+const signOpBudget = 5 * time.Second
+
+// runSignChild executes one op of this area in a child `vharness exec` (as runIsolated of area_stateres.go does, but with
+// the Go runtime's own stack limit - 1 GB -: the library's recursions over a document nested 10000 deep, the most
+// encoding/json reads, legitimately need more than the 32 MB runIsolated grants).
+func runSignChild(op string, args []string) string {
+	exe, err := os.Executable()
+	if err != nil {
+		return "err:no-executable"
+	}
+	ctx, cancel := context.WithTimeout(context.Background(), signOpBudget)
+	defer cancel()
+	cmd := exec.CommandContext(ctx, exe, "exec")
+	for _, kv := range os.Environ() {
+		if !strings.HasPrefix(kv, "VHARNESS_MAXSTACK=") {
+			cmd.Env = append(cmd.Env, kv)
+		}
+	}
+	cmd.Env = append(cmd.Env, "GOMEMLIMIT=2GiB", "GOTRACEBACK=single")
+	cmd.Stdin = strings.NewReader("sign." + op + "\t" + strings.Join(args, "\t") + "\n")
+	var stdout, stderr bytes.Buffer
+	cmd.Stdout, cmd.Stderr = &stdout, &stderr
+	runErr := cmd.Run()
+	if ctx.Err() == context.DeadlineExceeded {
+		return "panic:timeout"
+	}
+	if out := stdout.String(); runErr == nil && strings.HasSuffix(out, "\n") && strings.Count(out, "\n") == 1 {
+		return strings.TrimSuffix(out, "\n")
+	}
+	msg := stderr.String()
+	switch {
+	case strings.Contains(msg, "stack overflow") || strings.Contains(msg, "goroutine stack exceeds"):
+		return "panic:fatal-stack-overflow"
+	case strings.Contains(msg, "out of memory"):
+		return "panic:fatal-out-of-memory"
+	}
+	if i := strings.IndexByte(msg, '\n'); i >= 0 {
+		msg = msg[:i]
+	}
+	return "panic:fatal:" + oneLine(msg)
+}
+
+// deepSignedText: an object correctly signed by (srv, ed25519:1) one member of which is nested `depth` deep (the same
+// bytes as `deepText` of lean/VDriver/Sign.lean, with the real signature).  The signed form is written out by hand:
+// nothing of the library is involved in making the input.
+func deepSignedText(kind string, depth int, priv ed25519.PrivateKey) (text, payload []byte) {
+	br := strings.Repeat("[", depth) + strings.Repeat("]", depth)
+	var member string
+	switch kind {
+	case "arr", "open":
+		member = br
+	case "obj":
+		member = strings.Repeat(`{"a":`, depth) + "1" + strings.Repeat("}", depth)
+	case "uns", "sigs":
+		member = "1"
+	default:
+		return nil, nil
+	}
+	payload = []byte(`{"a":` + member + `}`)
+	sig := base64.RawStdEncoding.EncodeToString(ed25519.Sign(priv, payload))
+	block := `"signatures":{"srv":{"ed25519:1":"` + sig + `"}}`
+	switch kind {
+	case "arr", "obj":
+		return []byte(`{"a":` + member + `,` + block + `}`), payload
+	case "uns":
+		return []byte(`{"a":1,` + block + `,"unsigned":` + br + `}`), payload
+	case "sigs":
+		return []byte(`{"a":1,"signatures":{"srv":{"ed25519:1":"` + sig + `"},"zz":` + br + `}}`), payload
+	}
+	return []byte(`{"a":` + strings.Repeat("[", depth)), payload // open: never closed
+}
+
+// deepUnsignedText: the objects of `deep_sign` (= `deepSignText` of lean/VDriver/Sign.lean)
+func deepUnsignedText(kind string, depth int) []byte {
+	br := strings.Repeat("[", depth) + strings.Repeat("]", depth)
+	switch kind {
+	case "arr":
+		return []byte(`{"a":` + br + `}`)
+	case "obj":
+		return []byte(`{"a":` + strings.Repeat(`{"a":`, depth) + "1" + strings.Repeat("}", depth) + `}`)
+	case "uns":
+		return []byte(`{"a":1,"unsigned":` + br + `}`)
+	}
+	return nil
 }
 
 // ---------------------------------------------------------------- JV helpers
@@ -932,6 +1051,26 @@ func genSign(o *Out, tier string, r *Rng) {
 		o.Do("list", label, hx([]byte(t)), hx([]byte("srv")))
 		o.Do("verify", label, hx([]byte(t)), hx([]byte("srv")), hx([]byte("ed25519:1")), hx(pubA), "-", "rej")
 		o.Do("accept", label, hx([]byte(t)), hx([]byte("srv")), hx([]byte("ed25519:1")), hx(pubA), "-", "rej")
+	}
+	// C18 (and C02): documents nested up to and far beyond what encoding/json reads (10000 levels), in every part of a
+	// signed object, each run in a child process under a time budget: refused or verified, never a crash or a hang
+	deepDepths := []int{100, 5000, 9999, 10000, 20000, 100000}
+	if tier == "thorough" {
+		deepDepths = append(deepDepths, 9998, 10001, 300000, 1000000, 8000000)
+	}
+	for _, d := range deepDepths {
+		for _, kind := range []string{"arr", "obj", "uns", "sigs", "open"} {
+			dk := d
+			if kind == "obj" && d < 10000 && d > 2000 && tier != "thorough" {
+				dk = d / 5 // (the MODEL is quadratic in the depth of nested objects: 9999 takes it 14 s)
+			}
+			res := o.Do("deep_verify", kind, strconv.Itoa(dk))
+			o.Count("deep_verify." + kind + "." + res)
+			if kind == "arr" || kind == "obj" || kind == "uns" {
+				res := o.Do("deep_sign", kind, strconv.Itoa(dk))
+				o.Count("deep_sign." + kind + "." + res)
+			}
+		}
 	}
 	for i := 0; i < n; i++ {
 		genSignCase(o, r, i)
